@@ -280,13 +280,21 @@ def replay(case):
         seq_case(r, name, g, cg, "quick")
         return [v for v in r.viols if v["case"].get("seq") == case["seq"]]
     tree = RT.strip_ids(from_tjson(case["tree"]))
+    try:
+        return _replay_script(case, name, g, cg, tree)
+    except explorer.ReplayDivergence:
+        # the recorded answers do not fit the choice points of this tree's run (recorded on other code): nothing to report here
+        return []
+
+
+def _replay_script(case, name, g, cg, tree):
     # replay = the recorded script only (bound 0 from that prefix)
     script = case.get("script", [])
     r2 = Result(keep_all=True)
     if case["kind"] == "fuzz":
         orig = explorer.explore
 
-        def only(body, check, bound, horizon=0, max_execs=None, on_exec=None):
+        def only(body, check, bound, horizon=0, max_execs=None, on_exec=None, default_seed=None):
             obs, ex = explorer.run(body, script, SEED)
             check(obs, ex)
             return dict(executions=1, capped=False, deviation_bound=0, horizon=0)
@@ -299,7 +307,7 @@ def replay(case):
     else:
         orig = explorer.explore
 
-        def only(body, check, bound, horizon=0, max_execs=None, on_exec=None):
+        def only(body, check, bound, horizon=0, max_execs=None, on_exec=None, default_seed=None):
             obs, ex = explorer.run(body, script, SEED)
             check(obs, ex)
             return dict(executions=1, capped=False, deviation_bound=0, horizon=0)
